@@ -572,6 +572,9 @@ def check_order(names, table):
     return None
 
 
+NEEDS_BODY = {"SELECT", "FROM", "WHERE", "PREWHERE", "GROUP BY", "HAVING", "ORDER BY", "LIMIT", "OFFSET", "FETCH NEXT",
+              "SET", "VALUES", "RETURNING", "INTO", "JOIN", "INSERT", "UPDATE", "FORCE INDEX", "USE INDEX", "WITH"}
+
 _SQLITE = None
 
 
@@ -671,6 +674,13 @@ def riders(prog, merge, prefixes, L, stats):
             miss = check_order(names, table)
             if miss is not None:
                 bad.append(("clause-order", f"{miss} out of place or repeated in {' > '.join(names)}"))
+        # a clause keyword is followed by a body (the generator never asks for an empty clause)
+        for k, (name, first, after) in enumerate(cl):
+            if name in NEEDS_BODY:
+                nxt = cl[k + 1][1] if k + 1 < len(cl) else len(toks)
+                if after >= nxt:
+                    bad.append(("empty-clause", f"{name} has no body in {sql[:100]}"))
+                    break
         if cls == "SQLLiteQuery" and prog["mode"] == "main" and not (set(ms) & SQLITE_UNSUPPORTED):
             if ms["offset"] and not (ms["limit"] or ms["slice"]):
                 continue
